@@ -6,6 +6,7 @@ mod model;
 mod c01;
 mod c04;
 mod c05;
+mod c07;
 mod c19;
 
 fn main() {
@@ -15,6 +16,7 @@ fn main() {
                 "C01" => c01::run(ctx, rep),
                 "C04" => c04::run(ctx, rep),
                 "C05" => c05::run(ctx, rep),
+                "C07" => c07::run(ctx, rep),
                 "C19" => c19::run(ctx, rep),
                 _ => return false,
             }
@@ -25,6 +27,7 @@ fn main() {
                 "C01" => c01::replay(ctx, rep, case),
                 "C04" => c04::replay(ctx, rep, case),
                 "C05" => c05::replay(ctx, rep, case),
+                "C07" => c07::replay(ctx, rep, case),
                 "C19" => c19::replay(ctx, rep, case),
                 _ => return false,
             }
